@@ -1024,7 +1024,7 @@ pub struct Explored {
 
 /// breadth-first search with at most `max_hostile` hostile symbols per history
 pub fn explore(u: &Uni, lite: bool, alpha: &[Hostile], max_hostile: usize, rep: &mut Report, honest_terminals: Option<&BTreeSet<String>>, state_cap: usize) -> Explored {
-    let mut seen: BTreeSet<Hash> = BTreeSet::new();
+    let mut seen: crate::audit::MergeAudit<Vec<Ev>> = crate::audit::MergeAudit::new();
     let mut frontier: Vec<Vec<Ev>> = vec![vec![]];
     let mut terminals: BTreeMap<String, Vec<Ev>> = BTreeMap::new();
     let mut level = 0;
@@ -1083,7 +1083,7 @@ pub fn explore(u: &Uni, lite: bool, alpha: &[Hostile], max_hostile: usize, rep: 
                                     Some((p2, _)) if ht.contains(&p2) => {
                                         rep.outcome("pool-difference-gone-after-further-timers");
                                         terminals.entry(p).or_insert_with(|| h.clone());
-                                        if seen.insert(d) {
+                                        if seen.see(d, &h) {
                                             next.push(h);
                                         }
                                         continue;
@@ -1106,7 +1106,7 @@ pub fn explore(u: &Uni, lite: bool, alpha: &[Hostile], max_hostile: usize, rep: 
                     }
                     terminals.entry(p).or_insert_with(|| h.clone());
                 }
-                if seen.insert(d) {
+                if seen.see(d, &h) {
                     next.push(h);
                 }
             }
@@ -1120,8 +1120,33 @@ pub fn explore(u: &Uni, lite: bool, alpha: &[Hostile], max_hostile: usize, rep: 
         frontier = next;
     }
     rep.states += seen.len() as u64;
-    for d in seen.iter() {
+    for d in seen.rep_of.keys() {
         rep.distinct.insert(hex::encode(&d[0..8]));
+    }
+    // canonicalisation audit: merged histories agree with their representative one step on (the
+    // honest step, every internal delivery, and every seventh hostile symbol)
+    {
+        let quiet = Report::new("C11", Tier { thorough: false, seed: 0 }, "model_checking");
+        let pairs = if state_cap > 100_000 { 300 } else { 60 };
+        seen.audit(pairs, &format!("hostile-bfs-{}-k{}", if lite { "lite" } else { "full" }, max_hostile), |h: &Vec<Ev>| {
+            let Some((s, ok)) = replay(u, lite, h, &mut quiet.child()) else { return vec![("replay-failed".to_string(), None)] };
+            if !ok {
+                return vec![("aborted".to_string(), None)];
+            }
+            let evs: Vec<Ev> = enabled(&s, alpha, max_hostile).into_iter().enumerate().filter(|(i, e)| !matches!(e, Ev::X(_)) || i % 7 == 0).map(|(_, e)| e).collect();
+            drop(s);
+            evs.into_iter()
+                .map(|ev| {
+                    let mut hh = h.clone();
+                    hh.push(ev);
+                    let d = match replay(u, lite, &hh, &mut quiet.child()) {
+                        Some((s2, true)) => Some(digest(&s2)),
+                        _ => None,
+                    };
+                    (label(&ev), d)
+                })
+                .collect()
+        }, rep);
     }
     Explored { terminals }
 }
@@ -1159,7 +1184,9 @@ fn shape_sweep(u: &Uni, rep: &mut Report) {
     ];
     let atk = key(3);
     // payload lengths: the golden ticket payload has a fixed size (97), every other type is free
-    let mut cases: Vec<(TransactionType, usize, usize, usize, usize, u64, usize, usize)> = vec![];
+    // kp: whose key the slips name: 0 = all the sender's; 1 = the last input names the node's own key;
+    // 2 = the last output names the node's own key
+    let mut cases: Vec<(TransactionType, usize, usize, usize, usize, u64, usize, usize, u8)> = vec![];
     for ty in types {
         for nf in 0..=3usize {
             for nt in 0..=3usize {
@@ -1178,7 +1205,15 @@ fn shape_sweep(u: &Uni, rep: &mut Report) {
                                 vec![5]
                             };
                             for dl in lens {
-                                cases.push((ty, nf, nt, fp, tp, sender, pos, dl));
+                                cases.push((ty, nf, nt, fp, tp, sender, pos, dl, 0));
+                                if dl == 5 || dl == 97 {
+                                    if nf >= 2 {
+                                        cases.push((ty, nf, nt, fp, tp, sender, pos, dl, 1));
+                                    }
+                                    if nt >= 2 && fp == 0 {
+                                        cases.push((ty, nf, nt, fp, tp, sender, pos, dl, 2));
+                                    }
+                                }
                             }
                         }
                     }
@@ -1186,7 +1221,7 @@ fn shape_sweep(u: &Uni, rep: &mut Report) {
             }
         }
     }
-    let results = par_map(&cases, workers(), |_, &(ty, nf, nt, fp, tp, sender, pos, dl)| {
+    let results = par_map(&cases, workers(), |_, &(ty, nf, nt, fp, tp, sender, pos, dl, kp)| {
         let mut r = rep.child();
         r.evaluations += 1;
         let mut tx = Transaction::default();
@@ -1199,6 +1234,9 @@ fn shape_sweep(u: &Uni, rep: &mut Report) {
             sl.amount = 0;
             sl.slip_type = slip_pats[fp][i];
             sl.slip_index = i as u8;
+            if kp == 1 && i + 1 == nf {
+                sl.public_key = key(9).public;
+            }
             tx.from.push(sl);
         }
         for i in 0..nt {
@@ -1207,10 +1245,13 @@ fn shape_sweep(u: &Uni, rep: &mut Report) {
             sl.amount = 0;
             sl.slip_type = slip_pats[tp][i];
             sl.slip_index = i as u8;
+            if kp == 2 && i + 1 == nt {
+                sl.public_key = key(9).public;
+            }
             tx.to.push(sl);
         }
         tx.sign(&atk.private);
-        let what = format!("TxShape/{:?}/from{}/to{}/{:?}/{:?}/data{}/{}", ty, nf, nt, slip_pats[fp][0], slip_pats[tp][0], dl, who(sender));
+        let what = format!("TxShape/{:?}/from{}/to{}/{:?}/{:?}/data{}/{}{}", ty, nf, nt, slip_pats[fp][0], slip_pats[tp][0], dl, who(sender), match kp { 1 => "/last-input-names-the-node", 2 => "/last-output-names-the-node", _ => "" });
         let mut s = match start_with(u, false, pos != 99) {
             Ok(s) => s,
             Err(e) => {
